@@ -101,9 +101,8 @@ OFFS_POOL = [-840, -720, -570, -330, -60, -1, 0, 1, 60, 345, 330, 570, 765, 840]
 def rand_case(rnd, us=None, rep=None):
     rep = rep or rnd.choice(["dt", "iso", "iso", "isoZ"])
     off = 0 if rep == "isoZ" else rnd.choice(OFFS_POOL + [rnd.randrange(-840, 841)])
-    d = rnd.choice(DAYS_POOL + [rnd.randrange(0, 47482)] * 3)
-    if d == 0 and off > 0:
-        d = 1            # stay >= 1970-01-01 UTC
+    d = rnd.choice(DAYS_POOL + [0, 0] + [rnd.randrange(0, 47482)] * 3)
+    # day 0 with a positive offset is a 1970 timestamp whose instant lies before the epoch: inside the property's range
     s = rnd.choice([0, 1, 59, 3599, 43200, 86399, rnd.randrange(0, 86400)])
     if us is None:
         us = rnd.choice([0, 1, 999, 1000, 1001, 499999, 500000, 999000, 999999, rnd.randrange(0, 1000000)])
